@@ -402,6 +402,9 @@ class Inliner:
         (`add_x(const Generic&) { ...; return add_x(item); }`): the sibling's body is part of what the caller does."""
         cal = call.get("callee") or {}
         caller = self.facts.functions.get(caller_key) if caller_key else None
+        if not getattr(self, "_tail", False):
+            # only `return sibling(...)`: an overload that does more after the call is a unit of its own
+            return False
         if caller is None or not cal.get("inrepo") or cal.get("virtual"):
             return False
         if strip_targs(cal.get("qn") or "") != strip_targs(caller.get("qn") or "") or cal.get("cls") in API_CLASSES:
@@ -817,11 +820,12 @@ class Inliner:
                 return None
             args = call["args"][1:]
             return params, body, None, "lambda", True, cid, args
+        deleg = self.delegation(call, stack[-1] if stack else None)
         f = self.target_function(call, stack[-1] if stack else None)
         if f is None:
             return None
         nb = self.normalised_body(f, stack)
-        if nb is None or not (self.inlinable(f, nb) or self.delegation(call, stack[-1] if stack else None)):
+        if nb is None or not (self.inlinable(f, nb) or deleg):
             return None
         recv = call.get("recv") if call.get("k") == "MCall" else None
         return f["params"], nb, recv, f["qn"], False, f["key"], call.get("args", [])
@@ -918,7 +922,11 @@ class Inliner:
         # statement-level: the call is the whole statement, the whole right-hand side, the whole initialiser or
         # the whole returned expression
         site = self.statement_site(s)
-        parts = self.callee_parts(site[0], stack) if site is not None else None
+        self._tail = site is not None and s.get("k") == "Return"
+        try:
+            parts = self.callee_parts(site[0], stack) if site is not None else None
+        finally:
+            self._tail = False
         if parts is None:
             site = self.statement_site(s, nested=True)
             parts = self.callee_parts(site[0], stack) if site is not None else None
